@@ -373,7 +373,7 @@ class ContentElement:
       if self.get_doc() is None:
         raise ValueError("Not associated with a document")
         
-      if not self.get_doc().has_region(region.get_id()):
+      if self.get_doc().get_region(region.get_id()) is not region:
         raise ValueError("Region is unknown")
 
     self._region = region
